@@ -46,7 +46,11 @@ class ExprMixin:
         try:
             r = thunk()
         finally:
+            inner = st.guards[n_g + 1:]
             del st.guards[n_g:]
+        # path conditions assumed inside (the non-raising side of an implicit exception) survive as conditional guards
+        for g in inner:
+            st.guards.append(z3.Implies(cond, g))
         new = st.facts[n_f:]
         del st.facts[n_f:]
         for f in new:
@@ -569,11 +573,30 @@ class ExprMixin:
         if sv.pt.startswith("obj:"):
             m = self.repo.find_method(sv.pt[4:], "__iter__")
             if m is not None:
-                return self.as_seq(self.call_function(m, [sv], {}, st, fr, node), st, fr, node)
+                return self.as_seq(self.call_function(self.generator_as_list(m), [sv], {}, st, fr, node), st, fr, node)
         if sv.pt == "any":
             self.typing_assumptions += 1       # iterated value is viewed as a sequence
             return SV(sv.t, "list")
         raise Untranslatable(f"iteration over {sv.pt}")
+
+    def generator_as_list(self, m):
+        """a generator whose whole body is `yield e` / `yield from e` is read as the function returning `[e]` / `list(e)`:
+        the sequence of values an iteration over it produces (same source node, mechanical rewrite of the one statement)"""
+        import copy
+        import dataclasses
+        body = [b for b in m.node.body if not (isinstance(b, ast.Expr) and isinstance(b.value, ast.Constant))]
+        if len(body) == 1 and isinstance(body[0], ast.Expr) and isinstance(body[0].value, (ast.Yield, ast.YieldFrom)) and body[0].value.value is not None:
+            y = body[0].value
+            new = ast.List(elts=[y.value], ctx=ast.Load()) if isinstance(y, ast.Yield) else \
+                ast.Call(func=ast.Name(id="list", ctx=ast.Load()), args=[y.value], keywords=[])
+            node = copy.copy(m.node)
+            node.body = [ast.copy_location(ast.Return(value=ast.copy_location(new, body[0])), body[0])]
+            ast.fix_missing_locations(node)
+            cache = self.__dict__.setdefault("_gen_cache", {})
+            if m.key not in cache:
+                cache[m.key] = dataclasses.replace(m, node=node)
+            return cache[m.key]
+        return m
 
     def as_set(self, sv: SV, st, fr, node) -> SV:
         v = self.voc
